@@ -141,7 +141,39 @@ func (eng *Engine) contractKey(fn *ssa.Function) string {
 	if fn.Pkg == eng.utilPkg {
 		pk = "http2utils"
 	}
+	if par := fn.Parent(); par != nil {
+		// an anonymous function assigned to a local variable is addressed by that name:
+		// "(*serverConn).handleStreams.closeStream" (closure ordinals shift when code moves)
+		if n := closureVarName(par, fn); n != "" {
+			return eng.contractKey(par) + "." + n
+		}
+	}
 	return pk + "." + fn.RelString(fn.Pkg.Pkg)
+}
+
+func closureVarName(par, fn *ssa.Function) string {
+	for _, b := range par.Blocks {
+		for _, in := range b.Instrs {
+			st, ok := in.(*ssa.Store)
+			if !ok {
+				continue
+			}
+			var f *ssa.Function
+			switch v := st.Val.(type) {
+			case *ssa.MakeClosure:
+				f, _ = v.Fn.(*ssa.Function)
+			case *ssa.Function:
+				f = v
+			}
+			if f != fn {
+				continue
+			}
+			if a, ok := st.Addr.(*ssa.Alloc); ok && a.Comment != "" {
+				return a.Comment
+			}
+		}
+	}
+	return ""
 }
 
 func (eng *Engine) contractFor(fn *ssa.Function) *Contract {
